@@ -236,9 +236,18 @@ def conform_file(kind, state):
                 return "_conform_filename raised %s: %s" % (type(e).__name__, e)
         with open(filename, "rt") as f:
             after = f.read()
+        with contextlib.redirect_stdout(io.StringIO()), shim(ef, black=black_stub):
+            try:
+                _conform_filename(filename=filename, search=["T"], emit_func=lambda ir, **kw: emit(ir, word_wrap=False, **kw), replacement_node_ir=gold, type_wanted=wanted)
+            except Exception as e:
+                return "second run of _conform_filename raised %s: %s" % (type(e).__name__, e)
+        with open(filename, "rt") as f:
+            after2 = f.read()
     finally:
         if os.path.exists(filename):
             os.remove(filename)
+    if after2 != after:
+        return "running the same sync a second time changed the file (%d -> %d bytes, file state %d)" % (len(after), len(after2), state)
     try:
         mod = ast.parse(after)
     except SyntaxError as e:
@@ -260,4 +269,90 @@ ob("C12", "K5.conform_file", {"kind": R(0, 2), "state": R(0, 3)}, T=600, tpath=1
    funcs=["cdd.shared.conformance._conform_filename", "cdd.shared.emit.file.file", "cdd.shared.ast_utils.find_in_ast", "cdd.shared.ast_utils.RewriteAtQuery.generic_visit"],
    assumes=["stub: black.format_str -> identity in cdd.shared.emit.file under the engine (formatting is not the subject)"],
    bound="_conform_filename on a scratch file (outside /repo and /verif) for class / function / argparse targets; file missing, empty, holding unrelated definitions "
-         "only, or unrelated definitions plus a stale target (solver-enumerated): valid Python afterwards, unrelated definitions and imports kept, target present")(conform_file)
+         "only, or unrelated definitions plus a stale target (solver-enumerated): valid Python afterwards, unrelated definitions and imports kept, target present, a second run leaves the file byte-identical")(conform_file)
+
+
+# K6: the whole sync (cdd.shared.conformance.ground_truth) on three scratch files, run three times ------------------------------------------------
+METHODS = ('class C(object):\n    """C class"""\n\n    def helper(self):\n        return 2\n\n    def function_name(self, gamma: float = 0.5, name: str = "x"):\n        """\n        The truth.\n\n'
+           '        :param gamma: the gamma\n\n        :param name: the name\n        """\n\n    def tail(self):\n        return 3\n')
+ARGP = ('def pre(x):\n    return x\n\n\ndef set_cli_args(argument_parser):\n    """\n    Set CLI arguments\n\n    :param argument_parser: argument parser\n    :type argument_parser: ```ArgumentParser```\n\n'
+        '    :return: argument_parser\n    :rtype: ```ArgumentParser```\n    """\n    argument_parser.description = "Yet another."\n    argument_parser.add_argument("--delta", type=int, help="the delta", required=True, default=7)\n'
+        '    return argument_parser\n')
+CLASSES = {0: None, 1: "", 2: "import os\n\nX = 1\n", 3: 'import os\n\n\nclass ConfigClass(object):\n    """\n    Old.\n\n    :cvar q: old q\n    """\n\n    q: int = 0\n\n\nY = 2\n'}
+
+
+def sync_thrice(class_state, wrap):
+    import contextlib
+    import io
+    import types
+    from argparse import Namespace
+
+    import cdd.shared.emit.file as ef
+    from cdd.shared.conformance import ground_truth
+    from chx.shim import shim
+
+    _N[0] += 1
+    d = os.path.join(_ROOT, "s%d" % _N[0])
+    os.mkdir(d)
+    files = {"class": os.path.join(d, "classes.py"), "function": os.path.join(d, "methods.py"), "argparse": os.path.join(d, "argp.py")}
+    black_stub = types.SimpleNamespace(format_str=lambda src_contents, mode=None: src_contents, Mode=lambda **kw: None)
+    try:
+        with open(files["function"], "wt") as f:
+            f.write(METHODS)
+        with open(files["argparse"], "wt") as f:
+            f.write(ARGP)
+        content = CLASSES[0]
+        for k in (1, 2, 3):
+            if class_state == k:
+                content = CLASSES[k]
+        if content is not None:
+            with open(files["class"], "wt") as f:
+                f.write(content)
+        args = Namespace(argparse_functions=[files["argparse"]], argparse_function_names=["set_cli_args"], classes=[files["class"]], class_names=["ConfigClass"],
+                         functions=[files["function"]], function_names=["C.function_name"], truth="function", no_word_wrap=None if wrap else True)
+
+        def snap():
+            out = {}
+            for kind, fn in files.items():
+                with open(fn, "rt") as f:
+                    out[kind] = f.read()
+            return out
+
+        snaps = []
+        for run in (1, 2, 3):
+            with contextlib.redirect_stdout(io.StringIO()), contextlib.redirect_stderr(io.StringIO()), shim(ef, black=black_stub):
+                try:
+                    ground_truth(args, files["function"])
+                except Exception as e:
+                    return "run %d of sync raised %s: %s" % (run, type(e).__name__, e)
+            snaps.append(snap())
+    finally:
+        shutil.rmtree(d, ignore_errors=True)
+    for kind in files:
+        try:
+            ast.parse(snaps[0][kind])
+        except SyntaxError as e:
+            return "%s file is not valid Python after sync: %s" % (kind, e)
+    if snaps[0]["function"] != METHODS:
+        return "the truth file was modified by sync"
+    if "def pre(x)" not in snaps[0]["argparse"] or (class_state >= 2 and "import os" not in snaps[0]["class"]) or (class_state == 3 and "Y = 2" not in snaps[0]["class"]):
+        return "code outside the named targets was lost"
+    klass = [n for n in ast.parse(snaps[0]["class"]).body if isinstance(n, ast.ClassDef) and n.name == "ConfigClass"]
+    if not klass:
+        return "the class target was not created"
+    attrs = [(st.target.id, ast.unparse(st.annotation)) for st in klass[0].body if isinstance(st, ast.AnnAssign)]
+    if attrs != [("gamma", "float"), ("name", "str")]:
+        return "the class target has the interface %r, not the truth's" % (attrs,)
+    for run in (1, 2):
+        for kind in files:
+            if snaps[run][kind] != snaps[run - 1][kind]:
+                return "run %d of the same sync changed the %s file (%d -> %d bytes; class file state %d)" % (run + 1, kind, len(snaps[run - 1][kind]), len(snaps[run][kind]), class_state)
+    return ""
+
+
+ob("C12", "K6.sync_thrice", {"class_state": R(0, 3), "wrap": BOOL}, T=900, tpath=200,
+   funcs=["cdd.shared.conformance.ground_truth", "cdd.shared.conformance._conform_filename", "cdd.shared.emit.file.file", "cdd.function.parse.function",
+          "cdd.class_.emit.class_", "cdd.argparse_function.emit.argparse_function"],
+   assumes=["stub: black.format_str -> identity in cdd.shared.emit.file under the engine"],
+   bound="the whole sync with a method as truth, an existing argparse target and a class target file that is missing / empty / holds unrelated code / holds unrelated code "
+         "and a stale class (solver-enumerated), run three times: valid Python, truth untouched, unrelated code kept, class takes the truth's interface, runs 2 and 3 byte-identical")(sync_thrice)
